@@ -12,9 +12,11 @@ import (
 // Scr is a filter script as a tree. The harness renders it twice: as the text the library parses
 // (jp.MustNewFilter) and in postfix token form for the Lean driver, where FilterSpec.matches computes its
 // truth value by the documented semantics (exact int/float comparison, a bare path is an existence test,
-// some choice of a multi-valued path). The implementation is never asked what a script means.
+// some choice of a multi-valued path, `$` is the query argument). The implementation is never asked what a
+// script means.
 type Scr struct {
-	Kind string     `json:"k"`            // "c" constant, "p" path (@ + fragments), "1" unary, "2" binary
+	Kind string     `json:"k"`            // "c" constant, "p" path (@ or $ + fragments), "1" unary, "2" binary
+	Root bool       `json:"root,omitempty"` // "p": the path starts at `$` (the query argument), not at `@`
 	Op   string     `json:"op,omitempty"` // eq neq lt gt lte gte or and not
 	A    *Scr       `json:"a,omitempty"`
 	B    *Scr       `json:"b,omitempty"`
@@ -29,6 +31,7 @@ type Scr struct {
 }
 
 func at(fs ...Frag) *Scr { return &Scr{Kind: "p", path: Path(fs)} }
+func rt(fs ...Frag) *Scr { return &Scr{Kind: "p", Root: true, path: Path(fs)} }
 func ki(i int64) *Scr    { return &Scr{Kind: "c", CK: "i", I: i} }
 func kf(f float64) *Scr {
 	return &Scr{Kind: "c", CK: "f", F: f, FNeg: f == 0 && math.Signbit(f)}
@@ -122,6 +125,9 @@ func (s *Scr) text() string {
 			return "null"
 		}
 	case "p":
+		if s.Root {
+			return "$" + pathText(s.path)
+		}
 		return "@" + pathText(s.path)
 	case "1":
 		return "!(" + s.A.text() + ")"
@@ -216,7 +222,11 @@ func (s *Scr) tokens(out []string) []string {
 		}
 		return append(out, "k")
 	case "p":
-		out = append(out, "@")
+		if s.Root {
+			out = append(out, "$")
+		} else {
+			out = append(out, "@")
+		}
 		out = fragTokens(s.path, out)
 		return append(out, "p")
 	case "1":
@@ -230,6 +240,28 @@ func (s *Scr) tokens(out []string) []string {
 }
 
 func (s *Scr) rpn() string { return strings.Join(s.tokens(nil), " ") }
+
+// rootOperands collects the `$`-paths of the script; nested tells whether to look into the filters nested in
+// its path operands as well (there the library binds `$` differently, see Cfg.nestedFilterRoot).
+func (s *Scr) rootOperands(nested bool, out []Path) []Path {
+	if s == nil {
+		return out
+	}
+	if s.Kind == "p" {
+		if s.Root {
+			out = append(out, s.path)
+		}
+		if nested {
+			for i := range s.path {
+				if s.path[i].Kind == 'f' {
+					out = s.path[i].Scr.rootOperands(true, out)
+				}
+			}
+		}
+		return out
+	}
+	return s.B.rootOperands(nested, s.A.rootOperands(nested, out))
+}
 
 // seal / unseal move the path between its working form and its JSON form (replays, corpus).
 func (s *Scr) seal() *Scr {
@@ -275,10 +307,32 @@ func (s *Scr) unseal() (*Scr, error) {
 
 var cmpOps = []string{"eq", "neq", "lt", "gt", "lte", "gte"}
 
-// numbers that are equal or off by one across int and float, with both zeros
+// numbers that are equal or off by one across int and float, with both zeros, and negative non-whole floats
+// next to the integers they truncate and round to
 var numConsts = []*Scr{
 	ki(0), kf(0), kf(math.Copysign(0, -1)), ki(1), kf(1), ki(2), kf(2), kf(2.5), ki(3), kf(3),
 	ki(9), kf(9), ki(10), kf(10), kf(10.5), ki(11), kf(11), ki(-1),
+	ki(-2), kf(-2), kf(-2.5), ki(-3), kf(-1.5), kf(-0.5), kf(0.5), kf(-1),
+}
+
+// rootPath draws a path operand that starts at `$` (the trees are objects over keyPool and arrays).
+func (g *pathGen) rootPath() *Scr {
+	switch g.r.Intn(10) {
+	case 0:
+		return rt()
+	case 1, 2, 3:
+		return rt(fChild(lib.Pick(g.r, keyPool)))
+	case 4, 5:
+		return rt(fNth(g.r.Intn(3) - 1))
+	case 6:
+		return rt(fChild(lib.Pick(g.r, keyPool)), fNth(g.r.Intn(2)))
+	case 7:
+		return rt(fNth(g.r.Intn(2)), fChild(lib.Pick(g.r, keyPool)))
+	case 8:
+		return rt(fWild())
+	default:
+		return rt(fNth(0), fNth(g.r.Intn(2)))
+	}
 }
 
 func (g *pathGen) relPath() *Scr {
@@ -318,8 +372,11 @@ func (g *pathGen) constant() *Scr {
 // constant on the other.
 func (g *pathGen) comparison(p *Scr) *Scr {
 	other := g.constant()
-	if g.r.Intn(8) == 0 {
+	switch g.r.Intn(16) {
+	case 0, 1:
 		other = g.relPath0()
+	case 2, 3, 4:
+		other = g.rootPath() // also inside a nested filter, where the call comes from relPath
 	}
 	op := lib.Pick(g.r, cmpOps)
 	if g.r.Bool() {
@@ -343,7 +400,9 @@ func (g *pathGen) relPath0() *Scr {
 }
 
 func (g *pathGen) script() *Scr {
-	switch g.r.Intn(20) {
+	switch g.r.Intn(21) {
+	case 20:
+		return g.rootPath() // a bare `$`-path: true on every element or on none
 	case 0, 1:
 		return g.relPath() // a bare path: existence test
 	case 2, 3:
@@ -361,14 +420,16 @@ func (g *pathGen) script() *Scr {
 func comparisonBox(emit func(p Path, t *Node)) int {
 	f := nFlt
 	i := nInt
-	nums := []*Node{i(9), i(10), i(11), f(9), f(10), f(11), f(10.5), i(0), f(0), f(math.Copysign(0, -1)), i(-1), i(3), f(3)}
+	nums := []*Node{i(9), i(10), i(11), f(9), f(10), f(11), f(10.5), i(0), f(0), f(math.Copysign(0, -1)), i(-1), i(3), f(3),
+		i(-2), i(-3), f(-2), f(-2.5), f(-1.5), f(-0.5), f(2.5)}
 	flat := nArr(nums...)
 	var objs, nested []*Node
 	for k, n := range nums {
 		objs = append(objs, nObj("p", n, "x", nInt(int64(k))))
 		nested = append(nested, nObj("q", nArr(n, nInt(100)), "x", nInt(int64(k))))
 	}
-	consts := []*Scr{ki(9), ki(10), ki(11), kf(9), kf(10), kf(11), kf(10.5), ki(0), kf(0), kf(math.Copysign(0, -1)), ki(3), kf(3)}
+	consts := []*Scr{ki(9), ki(10), ki(11), kf(9), kf(10), kf(11), kf(10.5), ki(0), kf(0), kf(math.Copysign(0, -1)), ki(3), kf(3),
+		ki(-2), ki(-3), kf(-2), kf(-2.5), kf(-1.5), ki(-1), ki(2)}
 	n := 0
 	for _, op := range cmpOps {
 		for _, c := range consts {
@@ -387,6 +448,81 @@ func comparisonBox(emit func(p Path, t *Node)) int {
 				n += 5
 			}
 		}
+	}
+	return n
+}
+
+// rootBox: filters that read from `$` (the query argument) and sit BELOW the root — in the last and in an
+// inner position, under a member, a wildcard, a descent and another filter, with every comparison operator,
+// int and float keys on both sides, a bare `$`-path (existence), a multi-valued `$`-path, and a `$` inside a
+// filter nested in a script's own path.
+func rootBox(emit func(p Path, t *Node)) int {
+	i, f := nInt, nFlt
+	n := 0
+	mixed := []*Node{i(1), i(2), f(2), i(3), f(2.5), i(-2), f(-2.5), i(-3), nStr("a"), nNull()}
+	ints := []*Node{i(1), i(2), i(3), i(-2), i(-3)}
+	flts := []*Node{f(2), f(2.5), f(-2.5), f(-2), f(-3)}
+	type shape struct {
+		k     *Node
+		ids   []*Node
+		withC bool // `c` holds ids and key in arrays of one type (typed representations need that)
+	}
+	shapes := []shape{{i(2), ints, true}, {f(-2.5), flts, true}, {f(-2.5), ints, false}, {i(-2), flts, false}} // typed representations can hold these
+	for _, k := range []*Node{i(2), f(2), f(2.5), i(-2), f(-2.5), nStr("a"), nNull()} {
+		shapes = append(shapes, shape{k, mixed, true})
+	}
+	for _, sh := range shapes {
+		k := sh.k
+		var elems, flat []*Node
+		for j, id := range sh.ids {
+			elems = append(elems, nObj("a", id, "x", i(int64(10+j))))
+			flat = append(flat, id)
+		}
+		// {"k": key, "d": [{a: id, x: …}…], "b": {"k": key, "d": [id…]}, "c": [[id…],[key]]}
+		t := nObj("k", k, "d", nArr(elems...), "b", nObj("k", k, "d", nArr(flat...)), "c", nArr(nArr(flat...), nArr(k)))
+		if !sh.withC {
+			t = nObj("k", k, "d", nArr(elems...), "b", nObj("k", k, "d", nArr(flat...)))
+		}
+		for _, op := range cmpOps {
+			for _, flip := range []bool{false, true} {
+				cmp := func(a, b *Scr) *Scr {
+					if flip {
+						return op2(op, b, a)
+					}
+					return op2(op, a, b)
+				}
+				emit(Path{fChild("d"), fFilter(cmp(at(fChild("a")), rt(fChild("k"))))}, t)                       // $.d[?(@.a op $.k)]
+				emit(Path{fChild("d"), fFilter(cmp(at(fChild("a")), rt(fChild("k")))), fChild("x")}, t)          // … .x
+				emit(Path{fChild("b"), fChild("d"), fFilter(cmp(at(), rt(fChild("b"), fChild("k"))))}, t)        // $.b.d[?(@ op $.b.k)]
+				emit(Path{fChild("c"), fWild(), fFilter(cmp(at(), rt(fChild("c"), fNth(1), fNth(0))))}, t)       // $.c[*][?(@ op $.c[1][0])]
+				emit(Path{fDescent(), fFilter(cmp(at(fChild("a")), rt(fChild("k")))), fChild("x")}, t)           // $..[?(@.a op $.k)].x
+				emit(Path{fChild("d"), fFilter(cmp(at(fChild("a")), rt(fChild("b"), fChild("d"), fWild())))}, t) // multi-valued $-path
+				emit(Path{fWild(), fFilter(cmp(at(), rt(fChild("k"))))}, t)                                      // $[*][?(@ op $.k)] (the members of b, c, d)
+				n += 7
+			}
+		}
+		emit(Path{fChild("d"), fFilter(rt(fChild("k"))), fChild("x")}, t)                                               // existence of $.k: all
+		emit(Path{fChild("d"), fFilter(rt(fChild("zz")))}, t)                                                           // of $.zz: none
+		emit(Path{fChild("d"), fFilter(not(op2("eq", at(fChild("a")), rt(fChild("k")))))}, t)                           // !(…)
+		emit(Path{fChild("d"), fFilter(op2("and", op2("gte", at(fChild("a")), rt(fChild("k"))), op2("lt", at(fChild("x")), ki(13))))}, t) // && with an @-only comparison
+		emit(Path{fChild("d"), fFilter(op2("eq", at(), rt(fChild("d"), fNth(1))))}, t)                                  // an element equal to a $-selected container? (containers do not compare)
+		emit(Path{fChild("d"), fFilter(op2("eq", rt(), rt()))}, t)                                                      // `$ == $`
+		// a filter below another filter, both reading `$`
+		emit(Path{fChild("c"), fFilter(at(fNth(0))), fFilter(op2("eq", at(), rt(fChild("k"))))}, t)
+		// `$` inside a filter nested in the script's path: the documented reading takes the query argument
+		emit(Path{fChild("d"), fFilter(at(fFilter(op2("eq", at(), rt(fChild("k"))))))}, t)       // $.d[?(@[?(@ == $.k)])]
+		emit(Path{fChild("c"), fFilter(at(fFilter(op2("eq", at(), rt(fChild("k")))))), fNth(0)}, t) // $.c[?(@[?(@ == $.k)])][0]
+		n += 9
+	}
+	// arrays at the root
+	arr := nArr(nArr(i(1), i(2), i(3)), nArr(i(2), f(2), i(4)), nArr(f(-2.5), i(-2)))
+	for _, op := range cmpOps {
+		emit(Path{fWild(), fFilter(op2(op, at(), rt(fNth(0), fNth(1))))}, arr)            // $[*][?(@ op $[0][1])]
+		emit(Path{fNth(1), fFilter(op2(op, rt(fNth(2), fNth(1)), at()))}, arr)            // $[1][?($[2][1] op @)]
+		emit(Path{fSlice(0, 2), fFilter(op2(op, at(), rt(fNth(-1), fNth(0))))}, arr)      // $[0:2][?(@ op $[-1][0])]
+		emit(Path{fFilter(op2(op, at(fNth(0)), rt(fNth(1), fNth(0)))), fNth(1)}, arr)     // at the root: $[?(@[0] op $[1][0])][1]
+		emit(Path{fUnion(int64(0), int64(2)), fFilter(op2(op, at(), rt(fWild(), fNth(0))))}, arr) // multi-valued
+		n += 5
 	}
 	return n
 }
